@@ -22,6 +22,8 @@ def _run_path(contract, case, schedule, lengths, budget, want_canaries=False):
     try:
         try:
             env = contract.setup(S, case)
+            env.setdefault("case", case)
+            env.setdefault("S", S)
             fn = loader.resolve(contract.target)[0] if contract.target else None
             for stub in contract.uses:
                 stub.install()
@@ -240,6 +242,7 @@ def contract_stub(contract_cls, also=()):
         for clause in contract.post(S, case, env, result):
             c.add(sym.to_z3(clause[1]))
         c.assumed.append(contract.target)
+        c.calls.append((contract.name, case, env, result))
         return result
     replacement.__name__ = contract.target.split(":")[1].split(".")[-1]
     return Stub(contract.target, replacement, also)
